@@ -679,7 +679,7 @@ def WfElifs (sl : List Ty) : ElseIfs → Prop
   | .cons c body rest => SlotsBelow sl.length c ∧ NumericCond c ∧ Wf sl body ∧ WfElifs sl rest
 def WfCases (sl : List Ty) : SCases → Prop
   | .nil => True
-  | .cons conds body rest => CondsSlots sl.length conds ∧ Wf sl body ∧ WfCases sl rest
+  | .cons conds body rest => conds ≠ [] ∧ CondsSlots sl.length conds ∧ Wf sl body ∧ WfCases sl rest
 end
 
 /-- every variable holds a value of its declared type -/
